@@ -505,6 +505,9 @@ def run_known(ctx):
 
 def run(ctx):
     st = core.prepare(ctx, MODULES)
+    # field names of object types and values also come from the names of the builtin object members: a declared field
+    # called `keys` / `to_string` / `to_json` is a field like any other (present or missing in the value)
+    G.KEYS = [k for k in G.KEYS if k not in ("k1", "Z")] + ["keys", "to_string", "to_json"]
     ctx.assumptions += [
         "object values and object types are finite maps (no field twice): Val.wf / Ty.wf, checked per case by the driver",
         "functions never cross the boundary (DeepCast refuses them); the quantifier is over data values",
